@@ -519,11 +519,14 @@ def cursor_check(chk, run, cr, cases):
                     cr.stats['scripts_subrange'] += len(bs)
                 if k == 0 and 1 <= len(G.members(m['level'])) <= (4 if quick else 5):
                     small.append((c, m, v, rng))
+    chk.log('cursor scripts: %d legal, %d injected, %d subrange' % (cr.stats['scripts_legal'], cr.stats['scripts_injected'], cr.stats['scripts_subrange']))
     res = cr.execute('legal', legal_jobs)
+    chk.log('legal traversals done')
     # a complete legal traversal must end at the end of the message
     check_traversal_end(chk, cr, legal_jobs)
     cr.execute('injected', inj_jobs)
     cr.execute('subrange', sub_jobs)
+    chk.log('injected/subrange done')
     # (b) every call sequence up to depth D over (member x wrapper), extended while the implementation accepts it
     depth = 3 if quick else 4
     budget = 2500 if quick else 30000
@@ -541,6 +544,7 @@ def cursor_check(chk, run, cr, cases):
                 jobs.append((c, m, v, 'init', scripts))
                 metas.append((c, m, v, A, scripts))
                 cr.stats['scripts_exhaustive'] += len(scripts)
+        chk.log('exhaustive depth %d: %d scripts over %d messages' % (d + 1, sum(len(j[4]) for j in jobs), len(jobs)))
         res = cr.execute('exhaustive-depth%d' % (d + 1), jobs)
         frontier = []
         for ji, (c, m, v, A, scripts) in enumerate(metas):
